@@ -930,6 +930,14 @@ where
                 if strict {
                     println!("replay {}: known finding {}: {}", path.display(), f.signature, f.message);
                 }
+            } else if !strict && path.file_name().and_then(|n| n.to_str()).is_some_and(|n| n.contains("-known-")) {
+                // The reproducer of a registered finding drives sozu into a state that is broken by construction;
+                // how the breakage shows can depend on timing (e.g. the loop-budget kill of a 36 MB chunked
+                // response shows as a 504 when a loaded machine lets the backend time out first). Only the
+                // registered signature is a known hit; another outcome of such a file is logged, not reported:
+                // the file demonstrates a finding, it is not a generated case of the search.
+                st.flaky_unconfirmed += 1;
+                note_flaky(id, &f, &format!("known reproducer {} failed with a signature other than the registered one", path.display()));
             } else {
                 let replay = if strict {
                     path.to_string_lossy().to_string()
